@@ -369,6 +369,37 @@ func ExecSQL(file string, stmts ...string) error {
 	return nil
 }
 
+// ReadNodePointRows returns, for each id, the canonical list of its node-point rows straight from a store file
+// (harness privilege: points of a node that has no edge yet cannot be read through the API).
+func ReadNodePointRows(file string, ids []string) (map[string]string, error) {
+	db, err := sql.Open("sqlite", file+"?_pragma=busy_timeout(8000)")
+	if err != nil {
+		return nil, err
+	}
+	defer db.Close()
+	out := map[string]string{}
+	for _, id := range ids {
+		rows, err := db.Query("SELECT type, key, time, value, text, tombstone FROM node_points WHERE node_id = ? ORDER BY type, key", id)
+		if err != nil {
+			return nil, err
+		}
+		var lines []string
+		for rows.Next() {
+			var typ, key, text sql.NullString
+			var tm, tomb sql.NullInt64
+			var val sql.NullFloat64
+			if err := rows.Scan(&typ, &key, &tm, &val, &text, &tomb); err != nil {
+				rows.Close()
+				return nil, err
+			}
+			lines = append(lines, fmt.Sprintf("%s|%s|%d|%v|%s|%d", typ.String, key.String, tm.Int64, val.Float64, text.String, tomb.Int64))
+		}
+		rows.Close()
+		out[id] = strings.Join(lines, ";")
+	}
+	return out, nil
+}
+
 // ReadRootID reads the root id straight from a store file.
 func ReadRootID(file string) (string, error) {
 	db, err := sql.Open("sqlite", file+"?_pragma=busy_timeout(8000)")
